@@ -649,3 +649,101 @@ def patch_obj_replay(shape):
         return None
 
     return replay
+
+
+# ---- C12: Query operations against list slicing
+
+def query_op_replay(name, specname, arg_kind):
+    def replay(inputs):
+        import specs.fluent as qspec
+
+        fl = importlib.import_module("jsonpath.fluent_api")
+        envm = importlib.import_module("jsonpath.env")
+        raw = inputs.get("v", [])
+        ms = [make_match(m) if isinstance(m, dict) and m.get("<match>") else None for m in raw]
+        if any(m is None for m in ms):
+            return None
+        args = []
+        if arg_kind == "int":
+            args = [inputs.get("n", 0)]
+        elif isinstance(arg_kind, int):
+            args = [arg_kind]
+
+        def show(x):
+            if isinstance(x, fl.Query):
+                return [show(m) for m in x._it]
+            if hasattr(x, "obj") and hasattr(x, "parts"):
+                return (repr(x.obj), x.parts)
+            if isinstance(x, (list, tuple)):
+                return [show(y) for y in x]
+            if hasattr(x, "__iter__") and not isinstance(x, (str, dict)):
+                return [show(y) for y in x]
+            return x
+
+        q = fl.Query(iter(ms), envm.JSONPathEnvironment())
+        try:
+            r = getattr(q, name)(*args)
+            got = ("returns", show(r), show(q))
+        except Exception as e:  # noqa: BLE001
+            got = ("raises", type(e).__name__)
+        try:
+            back, rest = getattr(qspec, specname)(list(ms), *args)
+            want = ("returns", show(back), show(rest))
+        except Exception as e:  # noqa: BLE001
+            want = ("raises", type(e).__name__)
+        if got != want:
+            return f"Query over {len(ms)} matches .{name}({', '.join(map(repr, args))}): handed back {got[1]!r}, remaining {got[2] if len(got) > 2 else None!r}; list slicing gives {want[1]!r}, remaining {want[2] if len(want) > 2 else None!r}"
+        return None
+
+    return replay
+
+
+def query_candidates():
+    for n_matches in range(0, 5):
+        ms = [{"<match>": True, "obj": i * 10, "parts": [i], "path": f"$[{i}]", "root": list(range(5))} for i in range(n_matches)]
+        for n in (0, 1, 2, 3, 7):
+            yield {"v": ms, "n": n}
+
+
+# ---- C16: RelativeJSONPointer.to against the draft
+
+def relptr_replay(marker):
+    def replay(inputs):
+        import specs.relptr as rspec
+
+        ptrm = importlib.import_module("jsonpath.pointer")
+        exc = importlib.import_module("jsonpath.exceptions")
+        base = tuple(real(inputs.get("base_parts", [])))
+        suffix = tuple(real(inputs.get("suffix_parts", [])))
+        origin, index = inputs.get("origin", 0), inputs.get("index", 0)
+        if not all(isinstance(t, (int, str)) and not isinstance(t, bool) for t in base + suffix) or origin < 0:
+            return None
+        rel = ptrm.RelativeJSONPointer.__new__(ptrm.RelativeJSONPointer)
+        rel.origin, rel.index = origin, index
+        rel.pointer = "#" if marker else (ptrm.JSONPointer("", parts=suffix, unicode_escape=False) if suffix else ptrm.JSONPointer(""))
+        bp = ptrm.JSONPointer("", parts=base, unicode_escape=False) if base else ptrm.JSONPointer("")
+        try:
+            got = ("returns", [str(p) for p in rel.to(bp, unicode_escape=False).parts])
+        except (exc.RelativeJSONPointerError, exc.JSONPointerError) as e:
+            got = ("raises", "RelativeJSONPointerError" if isinstance(e, exc.RelativeJSONPointerError) else type(e).__name__)
+        except Exception as e:  # noqa: BLE001
+            got = ("raises", type(e).__name__)
+        try:
+            want = ("returns", [str(p) for p in rspec.to_parts(origin, index, suffix, marker, base)])
+        except Exception as e:  # noqa: BLE001
+            want = ("raises", "RelativeJSONPointerError" if isinstance(e, exc.RelativeJSONPointerError) else type(e).__name__)
+        if index != 0 and (len(base) <= origin or not (isinstance(base[len(base) - origin - 1], int) or str(base[len(base) - origin - 1]).isdigit())):
+            return None  # outside the statement: an offset on something that is not an array index
+        if got != want:
+            return f"RelativeJSONPointer(steps={origin}, offset={index}, {'#' if marker else 'suffix=%r' % (suffix,)}).to(base tokens {base!r}) {got[0]} {got[1]!r}; the draft {want[0]} {want[1]!r}"
+        return None
+
+    return replay
+
+
+def relptr_candidates():
+    import itertools
+
+    bases = [[], ["a"], [0], ["a", 2], ["a", "b", 1], [3, "k"]]
+    for base, origin, index, suffix in itertools.product(bases, (0, 1, 2, 3), (0, 1, -1, -3, 12), ([], ["x"], [0, "y"])):
+        yield {"base_parts": base, "origin": origin, "index": index, "suffix_parts": suffix}
